@@ -22,6 +22,13 @@ Driver of C12 (date arithmetic). One JSON request per line, batches inside a req
         -> {"model":[[y,m,d],..],"spec":[..]}
   {"op":"resolution","items":[[y,m,d,q,"units",negative],..],"impl":[[y,m,d]|null,..]}
         -> {"model":[{"std":[q,"month"|"day"],"res":[y,m,d]}|{"err":"ValueError"},..],"spec":[..]}
+  {"op":"compose","items":[[y,m,d,j,k],..],"impl":[[[r2],[back]]|null,..]}
+        r2 = add_months(add_months(d, j), k), back = add_months(add_months(d, k), -k) — two calls each
+        -> {"model":[[[r2],[back]],..],"spec":[bool|null,..]}   spec = Spec.composeOk ∧ Spec.undoOk for month-end d, else null
+  {"op":"resolutionRaw","items":[[y,m,d,q,"raw units",negative],..],"impl":[[y,m,d]|null,..]}
+        resolution_delta called with the caller's RAW unit string (no standardize_resolution)
+        -> {"model":[[y,m,d],..],"spec":[bool|null,..]}   spec: "month" -> intShiftOk (+ day), a day spelling ("day","days")
+        -> dayDeltaOk; any other raw unit: null (model comparison only: the function does day arithmetic, unscaled)
   {"op":"enum", "kmin":a,"kmax":b,"idlo":l,"idhi":h, and one of
         "dates":[[y,m,d],..] | "from":[y,m,d],"n":count | "monthEnds":[idFrom,idTo]}
         -> {"rows":[[y,m,d,count,s1,s2],..]}
@@ -235,6 +242,46 @@ def handle (j : Json) : Except String Json := do
           | .month =>
             let k := if neg then -q' else q'
             return Spec.intShiftOk d k ri && (!(0 ≤ monthToId d + k && d.valid) || Spec.intShiftDayOk d k ri))
+    return Json.mkObj [("model", Json.arr model), ("spec", Json.arr spec)]
+  | "compose" =>
+    let items ← arr? j "items"
+    let impl := optImpl j
+    let mut model := #[]
+    let mut spec := #[]
+    for i in [0:items.size] do
+      let a ← items[i]!.getArr?
+      let d ← dateAt a 0
+      let jj ← jInt? a[3]!
+      let k ← jInt? a[4]!
+      let r2 := addMonths (addMonths d (jj : Rat)) (k : Rat)
+      let back := addMonths (addMonths d (k : Rat)) ((-k : Int) : Rat)
+      model := model.push (Json.arr #[r2.toJson, back.toJson])
+      spec := spec.push (← if d.valid && d.isMonthEnd
+        then specOn (implAt impl i) fun r => do
+          let ra ← r.getArr?
+          return Spec.composeOk d jj k (← Date.fromJson ra[0]!) && Spec.undoOk d (← Date.fromJson ra[1]!)
+        else pure Json.null)
+    return Json.mkObj [("model", Json.arr model), ("spec", Json.arr spec)]
+  | "resolutionRaw" =>
+    let items ← arr? j "items"
+    let impl := optImpl j
+    let mut model := #[]
+    let mut spec := #[]
+    for i in [0:items.size] do
+      let a ← items[i]!.getArr?
+      let d ← dateAt a 0
+      let q ← jInt? a[3]!
+      let u ← a[4]!.getStr?
+      let neg ← a[5]!.getBool?
+      model := model.push (resolutionDeltaRaw d q u neg).toJson
+      let k := if neg then -q else q
+      spec := spec.push (← if u == "month"
+        then specOn (implAt impl i) fun r => do
+          let ri ← Date.fromJson r
+          return Spec.intShiftOk d k ri && (!(0 ≤ monthToId d + k && d.valid) || Spec.intShiftDayOk d k ri)
+        else if u == "day" || u == "days"
+        then specOn (implAt impl i) fun r => do return Spec.dayDeltaOk d q neg (← Date.fromJson r)
+        else pure Json.null)
     return Json.mkObj [("model", Json.arr model), ("spec", Json.arr spec)]
   | "enum" =>
     let kmin ← int? j "kmin"
